@@ -1166,6 +1166,37 @@ theorem run_chunks_sink : ∀ (ops : List Op) (st st' : State), WF st → (∀ o
     · exact hc1 c hm
     · have := hc2 c hm; rwa [e1.bufLen, hs1] at this
 
+/-! ### a decidable sufficient test for `Admissible` (used by the non-vacuity examples) -/
+
+def opAdmissibleB (st : State) : Op → Bool
+  | .setbuf _ => st.buf.isEmpty
+  | .setFd => true
+  | .setFunc => true
+  | _ => st.hasFunc || st.hasFd
+
+def admissibleB : State → List Op → Bool
+  | _, [] => true
+  | st, o :: os => opAdmissibleB st o &&
+    (match step st o with
+     | .ok s1 => admissibleB s1 os
+     | _ => true)
+
+theorem opAdmissibleB_sound {st : State} {o : Op} (h : opAdmissibleB st o = true) : OpAdmissible st o := by
+  cases o <;> simp [opAdmissibleB, OpAdmissible, Attached] at h ⊢ <;> exact h
+
+theorem admissibleB_sound : ∀ (ops : List Op) (st : State), admissibleB st ops = true → Admissible st ops := by
+  intro ops
+  induction ops with
+  | nil => intro _ _; trivial
+  | cons o os ih =>
+    intro st h
+    simp only [admissibleB, Bool.and_eq_true] at h
+    refine ⟨opAdmissibleB_sound h.1, ?_⟩
+    intro s1 h1
+    have h2 := h.2
+    rw [h1] at h2
+    exact ih s1 h2
+
 /-! ### terminals as the harness builds them -/
 
 theorem admissible_append : ∀ (a b : List Op) (st : State), Admissible st a →
